@@ -1,5 +1,6 @@
 //! C13 — `ConfigBuilder::build` / `build_lossy` on raw builder input, then `Logger::new` + `Log::log`
 //! on whatever configuration came back.
+//! on whatever configuration came back, observing which `Append` objects receive each probe record.
 //! case: rootLevel TAB appenders TAB rootRefs TAB loggers   (see lean/Driver/C13.lean)
 use crate::proto::*;
 use crate::rng::Rng;
@@ -8,12 +9,21 @@ use log4rs::append::Append;
 use log4rs::config::runtime::{ConfigError, ConfigErrors};
 use log4rs::config::{Appender, Config, Logger, Root};
 
-/// the boxed `Append` object; `id` is the position at which it was handed to the builder
-#[derive(Debug)]
-struct Dummy(#[allow(dead_code)] usize);
+type Calls = std::sync::Arc<std::sync::Mutex<Vec<usize>>>;
+
+/// the boxed `Append` object; the first field is the position at which it was handed to the builder
+/// (its identity), the second the shared list of deliveries
+struct Dummy(usize, Calls);
+
+impl std::fmt::Debug for Dummy {
+    fn fmt(&self, f: &mut std::fmt::Formatter<'_>) -> std::fmt::Result {
+        write!(f, "Dummy({})", self.0)
+    }
+}
 
 impl Append for Dummy {
     fn append(&self, _: &Record) -> anyhow::Result<()> {
+        self.1.lock().unwrap().push(self.0);
         Ok(())
     }
     fn flush(&self) {}
@@ -80,10 +90,10 @@ fn decode(fields: &[&str]) -> Option<Input> {
     Some(Input { root_level, appenders, root_refs, loggers })
 }
 
-fn builder_of(inp: &Input) -> (log4rs::config::runtime::ConfigBuilder, Root) {
+fn builder_of(inp: &Input, calls: &Calls) -> (log4rs::config::runtime::ConfigBuilder, Root) {
     let mut b = Config::builder();
     for (i, a) in inp.appenders.iter().enumerate() {
-        b = b.appender(Appender::builder().build(a.clone(), Box::new(Dummy(i))));
+        b = b.appender(Appender::builder().build(a.clone(), Box::new(Dummy(i, calls.clone()))));
     }
     for l in &inp.loggers {
         b = b.logger(
@@ -144,21 +154,27 @@ fn render_cfg(c: &Config) -> String {
     )
 }
 
-/// `Logger::new(config)` and one `Log::log` per configured logger name, per name with a child
-/// component appended, and for an unrelated target — nothing may panic.
-fn install_and_log(c: Config, targets: Vec<String>) -> &'static str {
+/// `Logger::new(config)` and `Log::log` for every probe target at the levels Error and Trace — nothing
+/// may panic. Returns the outcome and, per probe, the identities of the objects called, in order.
+fn install_and_log(c: Config, targets: Vec<String>, calls: &Calls) -> (&'static str, String) {
+    let calls = calls.clone();
     let r = guarded(std::panic::AssertUnwindSafe(move || {
         let logger = log4rs::Logger::new(c);
+        let mut rows = vec![];
         for t in &targets {
-            for lvl in [Level::Error, Level::Trace] {
+            for (n, lvl) in [(1, Level::Error), (5, Level::Trace)] {
+                calls.lock().unwrap().clear();
                 logger.log(&Record::builder().level(lvl).target(t).args(format_args!("m")).build());
+                let ids: Vec<String> = calls.lock().unwrap().iter().map(|i| i.to_string()).collect();
+                rows.push(format!("{}:{}:{}", enc_str(t), n, enc_list("|", &ids)));
             }
         }
         Log::flush(&logger);
+        enc_list(",", &rows)
     }));
     match r {
-        Ok(()) => "ok",
-        Err(_) => "PANIC",
+        Ok(rows) => ("ok", rows),
+        Err(_) => ("PANIC", "-".to_owned()),
     }
 }
 
@@ -176,23 +192,25 @@ pub fn exec(fields: &[&str]) -> String {
         Some(i) => i,
         None => return "bad-case".to_owned(),
     };
+    let calls: Calls = Default::default();
     let r = guarded(std::panic::AssertUnwindSafe(|| {
-        let (b, root) = builder_of(&inp);
+        let (b, root) = builder_of(&inp, &calls);
         let (lossy, errors) = b.build_lossy(root);
         let errors_s = render_errs(&errors);
         let lossy_s = render_cfg(&lossy);
-        let install = install_and_log(lossy, targets_of(&inp));
-        let (b, root) = builder_of(&inp);
-        let (strict, serrors, scfg, sinstall) = match b.build(root) {
+        let (install, deliv) = install_and_log(lossy, targets_of(&inp), &calls);
+        let (b, root) = builder_of(&inp, &calls);
+        let (strict, serrors, scfg, sinstall, sdeliv) = match b.build(root) {
             Ok(c) => {
                 let s = render_cfg(&c);
-                ("ok", "-".to_owned(), s, install_and_log(c, targets_of(&inp)))
+                let (i, d) = install_and_log(c, targets_of(&inp), &calls);
+                ("ok", "-".to_owned(), s, i, d)
             }
-            Err(e) => ("err", render_errs(&e), "-".to_owned(), "-"),
+            Err(e) => ("err", render_errs(&e), "-".to_owned(), "-", "-".to_owned()),
         };
         format!(
-            "strict={} serrors={} errors={} lossy={} install={} strictcfg={} strictinstall={}",
-            strict, serrors, errors_s, lossy_s, install, scfg, sinstall
+            "strict={} serrors={} errors={} lossy={} install={} strictcfg={} strictinstall={} deliv={} sdeliv={}",
+            strict, serrors, errors_s, lossy_s, install, scfg, sinstall, deliv, sdeliv
         )
     }));
     match r {
@@ -222,10 +240,12 @@ fn emit_case(
     emit(format!("{}\t{}\t{}\t{}", root_level, enc_list(",", &a), enc_list(",", &r), enc_list(",", &l)));
 }
 
-const APP_POOL: &[&str] = &["a", "b", "c", "d", "", "a::b", "A"];
+const APP_POOL: &[&str] = &["a", "b", "c", "d", "", "a::b", "A", "é", "𝒂"];
+// the first six are well-formed; then malformed names, non-ASCII names (2-, 3- and 4-byte scalars) and
+// colon look-alikes (U+FF1A FULLWIDTH COLON, U+A789 MODIFIER LETTER COLON are ordinary characters)
 const NAME_POOL: &[&str] = &[
     "a", "b", "a::b", "a::b::c", "b::a", "::a", "a::", "a:b", "a:::b", "", ":", "::", "a::::b", "x::y", "::a::b", "é::ü",
-    "a b", "a::b:", ":a",
+    "a b", "a::b:", ":a", "a：b", "a：：b", "𝒂::b", "꞉a", "é", "a::é::𝒂", "c", "d", "A",
 ];
 
 pub fn gen(rng: &mut Rng, n: usize, thorough: bool, emit: &mut dyn FnMut(String)) {
@@ -263,6 +283,76 @@ pub fn gen(rng: &mut Rng, n: usize, thorough: bool, emit: &mut dyn FnMut(String)
             );
         }
     }
+    // small-scope block over appenders × references × two loggers: appender lists over {a,b} of length
+    // ≤ 3, root references over {a,b,z} of length ≤ 2, a first logger with a name from
+    // {a, b, a::b, "a:", ""} and references over {a,z} of length ≤ 2, a second one with such a name
+    // and ≤ 1 reference; additive alternating. thorough: all (≈100 000); quick: every 41st.
+    let lists = |alpha: &[&str], max: usize| -> Vec<Vec<String>> {
+        let mut out: Vec<Vec<String>> = vec![vec![]];
+        let mut layer: Vec<Vec<String>> = vec![vec![]];
+        for _ in 0..max {
+            let mut next = vec![];
+            for l in &layer {
+                for a in alpha {
+                    let mut m = l.clone();
+                    m.push(a.to_string());
+                    next.push(m);
+                }
+            }
+            out.extend(next.iter().cloned());
+            layer = next;
+        }
+        out
+    };
+    let app_lists = lists(&["a", "b"], 3);
+    let root_lists = lists(&["a", "b", "z"], 2);
+    let ref2 = lists(&["a", "z"], 2);
+    let ref1 = lists(&["a", "z"], 1);
+    let lnames = ["a", "b", "a::b", "a:", ""];
+    let mut k = 0usize;
+    for apps in &app_lists {
+        for root in &root_lists {
+            for n1 in lnames {
+                for r1 in &ref2 {
+                    for n2 in lnames {
+                        for r2 in &ref1 {
+                            k += 1;
+                            if !thorough && k % 41 != 0 {
+                                continue;
+                            }
+                            emit_case(
+                                emit,
+                                2 + (k as u64 % 4),
+                                apps,
+                                root,
+                                &[(n1.to_string(), 1 + (k as u64 % 5), k % 2 == 0, r1.clone()), (n2.to_string(), 5 - (k as u64 % 3), k % 3 != 0, r2.clone())],
+                            );
+                        }
+                    }
+                }
+            }
+        }
+    }
+    // classes named by earlier seeded changes, deterministically: a logger named like an appender;
+    // consecutive dangling references; a non-additive logger with a dangling reference; a duplicate of
+    // an invalid name; triple duplicates; references to a duplicated appender; non-ASCII names
+    for (apps, root, logs) in [
+        (vec!["a", "b"], vec!["a"], vec![("a", true, vec!["b"]), ("b", false, vec!["a", "b"])]),
+        (vec!["a"], vec!["z", "y", "a"], vec![("x", true, vec!["q", "r", "a", "s"])]),
+        (vec!["a", "b"], vec!["a"], vec![("x", false, vec!["z", "b"]), ("x::y", true, vec!["a"])]),
+        (vec!["a"], vec![], vec![("a:", true, vec!["z"]), ("a:", false, vec!["a"]), ("a:", true, vec![])]),
+        (vec!["a", "a", "a", "b"], vec!["a", "a"], vec![("x", true, vec!["a", "b", "a"]), ("x", true, vec![]), ("x", false, vec!["a"])]),
+        (vec!["é", "𝒂", "é"], vec!["𝒂", "e"], vec![("a：b", true, vec!["é"]), ("𝒂::b", false, vec!["𝒂", "𝒃"]), ("꞉a", true, vec![])]),
+        (vec!["", "a"], vec![""], vec![("::a", true, vec![""]), ("a", true, vec!["", "a"])]),
+    ] {
+        let apps: Vec<String> = apps.iter().map(|s| s.to_string()).collect();
+        let root: Vec<String> = root.iter().map(|s| s.to_string()).collect();
+        let logs: Vec<(String, u64, bool, Vec<String>)> =
+            logs.iter().map(|(n, add, r)| (n.to_string(), 4, *add, r.iter().map(|s| s.to_string()).collect())).collect();
+        for lvl in [2, 5] {
+            emit_case(emit, lvl, &apps, &root, &logs);
+        }
+    }
     // random stream
     for _ in 0..n {
         let wide = rng.chance(1, 4);
@@ -288,11 +378,20 @@ pub fn gen(rng: &mut Rng, n: usize, thorough: bool, emit: &mut dyn FnMut(String)
                 rng.pick(&loggers).0.clone()
             } else if valid_bias && rng.chance(3, 4) {
                 rng.pick(&NAME_POOL[..5]).to_string()
+            } else if !apps.is_empty() && rng.chance(1, 8) {
+                // a logger named like an appender
+                rng.pick(&apps).clone()
             } else {
                 rng.pick(NAME_POOL).to_string()
             };
-            let n_refs = rng.range(0, 3);
-            let refs: Vec<String> = (0..n_refs).map(|_| pick_ref(rng)).collect();
+            let n_refs = rng.range(0, if wide { 5 } else { 3 });
+            let mut refs: Vec<String> = (0..n_refs).map(|_| pick_ref(rng)).collect();
+            if rng.chance(1, 10) {
+                // consecutive dangling references
+                let at = rng.below(refs.len() as u64 + 1) as usize;
+                refs.insert(at, "zz".to_owned());
+                refs.insert(at, "missing".to_owned());
+            }
             loggers.push((name, rng.range(0, 5), rng.chance(1, 2), refs));
         }
         // a fully well-formed variant now and then: unique names, only declared references
